@@ -5,6 +5,7 @@ import (
 	"crypto/x509"
 	"errors"
 	"fmt"
+	"net"
 	"runtime"
 	"sort"
 	"strings"
@@ -146,6 +147,16 @@ func DrawDir(prop, tier string, ch *Chooser, lean bool, s *Sim) *Dir {
 			c.Flavour = 1
 		}
 		d.Clients = append(d.Clients, c)
+	}
+	if prop == "C18" {
+		// the test directory with WithMTLS: probes by clients that do and do
+		// not satisfy it
+		d.NoTLS, d.MTLS, d.Anon = false, true, true
+		d.Clients = nil
+		for i, n := 0, 4+ch.Choose(8); i < n; i++ {
+			d.Ops = append(d.Ops, dOp{Kind: "probe", DN: []string{"valid", "nocert", "foreign", "valid", "plaintext", "starttls-in-session", "nocert", "foreign"}[ch.Choose(8)]})
+		}
+		return d
 	}
 	if prop == "C19" {
 		// user sets with DNs that are prefixes of one another, duplicates,
@@ -428,6 +439,8 @@ func (d *Dir) drive(w *simrt.World) {
 					res.Entries = append(res.Entries, de)
 				}
 			}
+		case "probe":
+			res.Code, res.Err = d.probe(w, op.DN, tcfg())
 		case "set-users":
 			dir.SetUsers(entries(op.Users)...)
 		case "set-groups":
@@ -446,6 +459,58 @@ func (d *Dir) drive(w *simrt.World) {
 	simrt.Park("task", "d-stop", nil)
 	dir.Stop()
 	simrt.Emit("d-stopped", 0, 0, 0, 0, "", nil)
+}
+
+// probe connects as the given kind of client, sends an anonymous bind (or, for
+// starttls-in-session, a StartTLS request) and reports whether any LDAP
+// response came back: Code 1 = a response was received (so a handler ran),
+// 0 = the connection ended without one.
+func (d *Dir) probe(w *simrt.World, kind string, valid *tls.Config) (int, string) {
+	ep := w.Dial(389, false)
+	if ep == nil {
+		return -1, "connection refused"
+	}
+	defer ep.Close()
+	var conn net.Conn = ep
+	if kind != "plaintext" {
+		cfg := valid.Clone()
+		switch kind {
+		case "nocert":
+			cfg.Certificates = nil
+		case "foreign":
+			// force a certificate the server's CA did not issue onto the wire
+			fc := getPKI().foreignCli
+			cfg.Certificates = nil
+			cfg.GetClientCertificate = func(*tls.CertificateRequestInfo) (*tls.Certificate, error) { return &fc, nil }
+		}
+		tc := tls.Client(ep, cfg)
+		if err := tc.Handshake(); err != nil {
+			return 0, "handshake: " + err.Error()
+		}
+		conn = tc
+	}
+	rec := &ReqRec{Op: "bind", MsgID: 1, BindVersion: 3}
+	if kind == "starttls-in-session" {
+		rec = &ReqRec{Op: "extended", MsgID: 1, BindVersion: 3, ExtName: oidStartTLS}
+	}
+	t, _ := rec.TLV()
+	if _, err := conn.Write(t.Enc()); err != nil {
+		return 0, "write: " + err.Error()
+	}
+	var acc []byte
+	buf := make([]byte, 4096)
+	for {
+		n, err := conn.Read(buf)
+		acc = append(acc, buf[:n]...)
+		if l, ferr := FrameLen(acc); ferr == nil && l > 0 && len(acc) >= l {
+			if _, perr := ParseResponse(acc[:l]); perr == nil {
+				return 1, ""
+			}
+		}
+		if err != nil {
+			return 0, "read: " + err.Error()
+		}
+	}
 }
 
 func (d *Dir) Gate(p *simrt.Parked) bool { return true }
@@ -515,6 +580,15 @@ func (d *Dir) judge(s *Sim, op *dOp, res *dResult) {
 		d.mGroups = cloneAll(op.Users)
 	case "set-anon":
 		d.mAnon = op.Anon
+	case "probe":
+		s.Probe("C18-offending-client-dir-" + op.DN)
+		offending := op.DN == "nocert" || op.DN == "foreign" || op.DN == "plaintext"
+		switch {
+		case offending && res.Code == 1:
+			s.Violate("C18", "gate", "testdirectory-mtls client="+op.DN, fmt.Sprintf("a client that %s received an LDAP response from the WithMTLS test directory", map[string]string{"nocert": "presented no certificate", "foreign": "presented a certificate from another CA", "plaintext": "sent plaintext LDAP"}[op.DN]))
+		case !offending && res.Code != 1:
+			s.Violate("C18", "isolated", "testdirectory-mtls conforming-client-rejected", fmt.Sprintf("a client with the directory's own client certificate got no response: %s", res.Err))
+		}
 	case "bind":
 		s.Probe("C19-bind")
 		class := "unknown-dn"
